@@ -56,6 +56,8 @@ def check_typing(st, fam, cls, s, rots, scn_base, ways=("method", "string")):
         sr = rm.rot_right(s, r)
         rec = CircularRecord(Seq(sr), id="f")
         try:
+            alive = cls(rec)          # the forward wrapper stays alive (and typed) while the reverse complement is typed
+            alive.is_valid()
             fwd = typed(cls, rec)
         except Exception as e:
             st.violation(fam, "forward-raises-" + type(e).__name__, dict(scn_base, rotation=r), "values", str(e)[:100])
